@@ -99,6 +99,11 @@ pub fn check(ctx: &Ctx) -> i32 {
             report.violations.push(write_replay(ctx, "core-pipeline", &bytes, &f));
         }
     }
+    {
+        let lcfg = lin_cfg_for(ctx, Arch::Rv);
+        crate::fuzzrun::semantic_phase(ctx, &mut ev, &mut report, "lin-rv", 1008, "linear", 450, &|b| run_lin_case(ctx, Arch::Rv, &decode_lin(&lcfg, b), false).0);
+        crate::fuzzrun::semantic_phase(ctx, &mut ev, &mut report, "core-rv", 1108, "core-pipeline", 450, &|b| run_core_lin_case(ctx, Arch::Rv, b, false).0);
+    }
     let infra: u64 = ev.discards.iter().filter(|(k, _)| k.starts_with("infra")).map(|(_, v)| *v).sum();
     if infra > 0 {
         report.infra_errors.push(format!("{infra} cases hit an infrastructure problem (see evidence)"));
